@@ -46,8 +46,9 @@ type VCellPtr struct {
 	Path []int // field path inside a struct-valued cell
 }
 type VElemPtr struct {
-	S   VSlice
-	Idx T
+	S    VSlice
+	Idx  T
+	Path []int // field path inside a struct-valued element
 }
 type VFieldPtr struct { // &ref.f for heap structs
 	Ref   T
@@ -75,6 +76,16 @@ type VIface struct {
 	ID  T
 }
 type VNilPtr struct{}
+
+// VMap: maps are path-concrete: a set of entries with literal string keys. Unknown maps
+// (parameters, havoc) answer lookups with unconstrained values.
+type VMap struct {
+	ID      T
+	Typ     types.Type
+	Keys    []string
+	Vals    []Val
+	Unknown bool
+}
 
 func isByteElem(t types.Type) bool {
 	b, ok := t.Underlying().(*types.Basic)
